@@ -1,13 +1,324 @@
 #!/usr/bin/env python3
-"""Translator: constant tables of /repo/src -> lean/CxVerif/Extracted/*.lean (regenerated on every run).
-Tables are located by *name* anywhere under src/, not by file path."""
+"""Translator: constant tables of /repo/src -> lean/CxVerif/Extracted/*.lean, regenerated on every run.
+
+Each unit registers its tables in tools/extractors/<unit>.py as
+
+    TABLES = [ Table(lean_file="Sha2", lean_name="K32", rust_name="K32", files="src/hashing/sha2/**/*.rs",
+                     elem="UInt32", scope=None), ... ]
+
+`rust_name` is searched (by name, in every file matching `files`) as `const|static NAME : T = <init> ;`
+or `let NAME (: T)? = <init> ;`; `scope` optionally restricts the search to the body of `fn scope`/`mod scope`/
+`impl scope`.  The initializer is parsed with a small Rust constant-expression evaluator (integer literals
+with suffixes and `_`, nested arrays, `[x; n]` repeats, tuple-struct and struct literals (fields in source
+order), references to other constants of the same file, + - * << >> | & ^ and parentheses, `as T` ignored).
+The value is emitted as a (nested) Lean list literal of `elem`.
+Lean files are rewritten only when their content changes.
+"""
+import glob
+import importlib
 import os
+import pkgutil
 import re
 import sys
+from dataclasses import dataclass, field
+from typing import Optional
 
 VERIF = os.path.dirname(os.path.dirname(os.path.abspath(__file__)))
 REPO = os.environ.get("CX_REPO", "/repo")
 OUT = os.path.join(VERIF, "lean", "CxVerif", "Extracted")
+
+
+@dataclass
+class Table:
+    lean_file: str            # Extracted/<lean_file>.lean
+    lean_name: str            # def name inside namespace Cx.Extracted.<lean_file>
+    rust_name: str
+    files: str                # glob relative to /repo
+    elem: str = "Nat"         # Lean element type: Nat, Int, UInt8, UInt32, UInt64
+    scope: Optional[str] = None
+    flatten: bool = False     # flatten nested structure into one list
+    doc: str = ""
+    post: Optional[object] = None   # optional python function value -> value
+
+
+class ExtractError(Exception):
+    pass
+
+
+def strip_rust_comments(src):
+    src = re.sub(r"/\*.*?\*/", lambda m: "\n" * m.group(0).count("\n"), src, flags=re.S)
+    src = re.sub(r"//[^\n]*", "", src)
+    return src
+
+
+TOK = re.compile(r"\s*(0x[0-9a-fA-F_]+|0b[01_]+|0o[0-7_]+|[0-9][0-9_]*|[A-Za-z_][A-Za-z0-9_]*(?:::[A-Za-z_][A-Za-z0-9_]*)*|<<|>>|[\[\](){};,:+\-*|&^!=.]|b?\"(?:[^\"\\]|\\.)*\")")
+SUFFIX = re.compile(r"(?:_?(?:u8|u16|u32|u64|u128|usize|i8|i16|i32|i64|i128|isize))$")
+
+
+def tokenize(s):
+    out, i = [], 0
+    s = s.strip()
+    while i < len(s):
+        m = TOK.match(s, i)
+        if not m:
+            if s[i:].strip() == "":
+                break
+            raise ExtractError(f"cannot tokenize near {s[i:i+30]!r}")
+        out.append(m.group(1))
+        i = m.end()
+    return out
+
+
+class Eval:
+    def __init__(self, toks, resolver):
+        self.t, self.i, self.res = toks, 0, resolver
+
+    def peek(self):
+        return self.t[self.i] if self.i < len(self.t) else None
+
+    def eat(self, x=None):
+        tok = self.peek()
+        if x is not None and tok != x:
+            raise ExtractError(f"expected {x!r} got {tok!r}")
+        self.i += 1
+        return tok
+
+    def expr(self):
+        return self.bor()
+
+    def bor(self):
+        v = self.bxor()
+        while self.peek() == "|":
+            self.eat(); v = v | self.bxor()
+        return v
+
+    def bxor(self):
+        v = self.band()
+        while self.peek() == "^":
+            self.eat(); v = v ^ self.band()
+        return v
+
+    def band(self):
+        v = self.shift()
+        while self.peek() == "&":
+            self.eat(); v = v & self.shift()
+        return v
+
+    def shift(self):
+        v = self.add()
+        while self.peek() in ("<<", ">>"):
+            op = self.eat(); w = self.add()
+            v = v << w if op == "<<" else v >> w
+        return v
+
+    def add(self):
+        v = self.mul()
+        while self.peek() in ("+", "-"):
+            op = self.eat(); w = self.mul()
+            v = v + w if op == "+" else v - w
+        return v
+
+    def mul(self):
+        v = self.unary()
+        while self.peek() == "*":
+            self.eat(); v = v * self.unary()
+        return v
+
+    def unary(self):
+        if self.peek() == "-":
+            self.eat(); return -self.unary()
+        if self.peek() == "&":
+            self.eat(); return self.unary()
+        v = self.atom()
+        while self.peek() == "as":
+            self.eat(); self.eat()
+        return v
+
+    def atom(self):
+        tok = self.peek()
+        if tok is None:
+            raise ExtractError("unexpected end")
+        if tok == "(":
+            self.eat()
+            v = self.expr()
+            if self.peek() == ",":      # tuple
+                items = [v]
+                while self.peek() == ",":
+                    self.eat()
+                    if self.peek() == ")":
+                        break
+                    items.append(self.expr())
+                v = items
+            self.eat(")")
+            return v
+        if tok == "[":
+            self.eat()
+            items = []
+            if self.peek() == "]":
+                self.eat(); return items
+            first = self.expr()
+            if self.peek() == ";":
+                self.eat(); n = self.expr(); self.eat("]")
+                return [first] * n
+            items.append(first)
+            while self.peek() == ",":
+                self.eat()
+                if self.peek() == "]":
+                    break
+                items.append(self.expr())
+            self.eat("]")
+            return items
+        if re.match(r"0x|0b|0o|[0-9]", tok):
+            self.eat()
+            t = SUFFIX.sub("", tok).replace("_", "")
+            return int(t, 0) if not t.startswith("0o") else int(t[2:], 8)
+        if tok.startswith('b"') or tok.startswith('"'):
+            self.eat()
+            body = tok[tok.index('"') + 1:-1]
+            return list(bytes(body, "latin1").decode("unicode_escape").encode("latin1"))
+        if re.match(r"[A-Za-z_]", tok):
+            self.eat()
+            nxt = self.peek()
+            if nxt == "(":               # tuple struct / call: Name(a, b, ...)
+                self.eat()
+                items = []
+                while self.peek() != ")":
+                    items.append(self.expr())
+                    if self.peek() == ",":
+                        self.eat()
+                self.eat(")")
+                return items[0] if len(items) == 1 and tok.split("::")[-1] in ("Fe", "Scalar") else items
+            if nxt == "{":               # struct literal: values in source order
+                self.eat()
+                items = []
+                while self.peek() != "}":
+                    self.eat()           # field name
+                    self.eat(":")
+                    items.append(self.expr())
+                    if self.peek() == ",":
+                        self.eat()
+                self.eat("}")
+                return items
+            return self.res(tok)
+        raise ExtractError(f"unexpected token {tok!r}")
+
+
+def find_scope(src, scope):
+    m = re.search(r"\b(?:fn|mod|impl(?:<[^>]*>)?(?:\s+\w+\s+for)?|struct|trait)\s+" + re.escape(scope) + r"\b[^{;]*\{", src)
+    if not m:
+        return None
+    depth, i = 1, m.end()
+    while i < len(src) and depth:
+        depth += {"{": 1, "}": -1}.get(src[i], 0)
+        i += 1
+    return src[m.end():i - 1]
+
+
+def find_init(src, name):
+    """text of the initializer of const/static/let `name`"""
+    m = re.search(r"\b(?:const|static|let)\s+(?:mut\s+)?" + re.escape(name) + r"\s*(?::[^=]*?)?=(?!=)", src)
+    if not m:
+        return None
+    depth, i = 0, m.end()
+    while i < len(src):
+        c = src[i]
+        if c in "([{":
+            depth += 1
+        elif c in ")]}":
+            depth -= 1
+        elif c == ";" and depth == 0:
+            return src[m.end():i]
+        i += 1
+    return None
+
+
+def rust_files(pattern):
+    return sorted(glob.glob(os.path.join(REPO, pattern), recursive=True))
+
+
+def extract_value(tb: Table):
+    hits = []
+    for f in rust_files(tb.files):
+        src = strip_rust_comments(open(f).read())
+        body = src
+        if tb.scope:
+            body = find_scope(src, tb.scope)
+            if body is None:
+                continue
+        init = find_init(body, tb.rust_name)
+        if init is None:
+            continue
+
+        def resolver(ident, _src=src, _body=body, _seen=[]):
+            base = ident.split("::")[-1]
+            if base in ("u32", "u64", "usize", "u8"):
+                raise ExtractError(f"unexpected type name {ident}")
+            if base in _seen:
+                raise ExtractError(f"cyclic constant {ident}")
+            ini = find_init(_body, base) or find_init(_src, base)
+            if ini is None:
+                # look in sibling files of the same glob
+                for g in rust_files(tb.files):
+                    s2 = strip_rust_comments(open(g).read())
+                    ini = find_init(s2, base)
+                    if ini is not None:
+                        break
+            if ini is None:
+                raise ExtractError(f"cannot resolve constant {ident}")
+            _seen.append(base)
+            try:
+                return Eval(tokenize(ini), resolver).expr()
+            finally:
+                _seen.pop()
+        val = Eval(tokenize(init), resolver).expr()
+        hits.append((f, val))
+    if not hits:
+        raise ExtractError(f"constant {tb.rust_name} not found in {tb.files}" + (f" scope {tb.scope}" if tb.scope else ""))
+    vals = [v for _, v in hits]
+    if any(v != vals[0] for v in vals[1:]):
+        raise ExtractError(f"constant {tb.rust_name} has differing definitions in {[os.path.relpath(f, REPO) for f, _ in hits]}")
+    v = vals[0]
+    if tb.flatten:
+        def fl(x):
+            return [z for y in x for z in fl(y)] if isinstance(x, list) else [x]
+        v = fl(v)
+    if tb.post:
+        v = tb.post(v)
+    return v
+
+
+def lean_type(v, elem):
+    return "List (" + lean_type(v[0] if v else 0, elem) + ")" if isinstance(v, list) else elem
+
+
+def lean_lit(v, elem, top=True):
+    if isinstance(v, list):
+        inner = ", ".join(lean_lit(x, elem, False) for x in v)
+        return "[" + inner + "]"
+    if v < 0:
+        return f"({v})"
+    return str(v)
+
+
+def check_range(v, elem):
+    lim = {"UInt8": 2**8, "UInt32": 2**32, "UInt64": 2**64}
+    if isinstance(v, list):
+        for x in v:
+            check_range(x, elem)
+    elif elem in lim and not (0 <= v < lim[elem]):
+        raise ExtractError(f"value {v} out of range for {elem}")
+    elif elem == "Nat" and v < 0:
+        raise ExtractError(f"negative value {v} for Nat")
+
+
+def all_tables():
+    tabs = []
+    pkg = os.path.join(os.path.dirname(os.path.abspath(__file__)), "extractors")
+    sys.path.insert(0, os.path.dirname(os.path.abspath(__file__)))
+    for m in sorted(pkgutil.iter_modules([pkg])):
+        mod = importlib.import_module("extractors." + m.name)
+        tabs += list(getattr(mod, "TABLES", []))
+    return tabs
 
 
 def write_if_changed(path, content):
@@ -21,8 +332,30 @@ def write_if_changed(path, content):
 
 def regenerate():
     """returns {"tables": n, "errors": [{"table":…, "error":…}], "changed": bool}"""
-    return {"tables": 0, "errors": [], "changed": False}
+    tabs = all_tables()
+    by_file, errors, n = {}, [], 0
+    for tb in tabs:
+        try:
+            v = extract_value(tb)
+            check_range(v, tb.elem)
+            ty = lean_type(v, tb.elem)
+            body = f"def {tb.lean_name} : {ty} :=\n  {lean_lit(v, tb.elem)}\n"
+            n += 1
+        except (ExtractError, RecursionError, ValueError, TypeError, IndexError) as e:
+            errors.append({"table": f"{tb.lean_file}.{tb.lean_name}", "error": str(e)[:300]})
+            # keep the Lean project buildable: an empty table makes every theorem about it fail
+            ty = "List " + tb.elem
+            body = f"/-- EXTRACTION FAILED: {str(e)[:200]} -/\ndef {tb.lean_name} : {ty} := []\n"
+        doc = f"/-- {tb.doc} (from `{tb.rust_name}` in {tb.files}) -/\n" if not body.startswith("/--") else ""
+        by_file.setdefault(tb.lean_file, []).append("set_option maxRecDepth 1000000 in\n" + doc + body)
+    changed = False
+    for lf, bodies in by_file.items():
+        content = ("-- GENERATED by tools/extract_tables.py from /repo/src on every run. Do not edit.\n"
+                   f"namespace Cx.Extracted.{lf}\n\n" + "\n".join(bodies) + f"\nend Cx.Extracted.{lf}\n")
+        changed |= write_if_changed(os.path.join(OUT, lf + ".lean"), content)
+    return {"tables": n, "errors": errors, "changed": changed}
 
 
 if __name__ == "__main__":
-    print(regenerate())
+    r = regenerate()
+    print(r)
